@@ -64,3 +64,8 @@ claim("C03",
       "Decides for every command history (command strings are not tracked, so every arm is possible in every state) that MAIL is entered only from READY, recipients appended only in MAIL, DATA entered only from MAIL with recipients, Deliver called only in DATA; that the envelope reset is complete, that outside a transaction the recipient list is empty at every input read and that RSET/EHLO/HELO with an open envelope and the end of DATA pass the reset; that exactly one final reply precedes every input read; and that Deliver is unreachable from a failed DATA read. Liveness, callee panic-freedom and parser index bounds are not decided here.",
       "Trusts go/ssa; reply classes are read from constant reply prefixes; one Session per goroutine.",
       "DESIGN.md section 4, C03")
+claim("C13",
+      "typestate abstract interpretation of the POP3 session (state, snapshot loaded), who-may-call and dominance for the commit path, control-dependence on retain[i] in every loop over the snapshot, guard-based bounds argument for argument-derived indices",
+      "Decides for every command history that the snapshot is loaded only in AUTHORIZATION and always followed by rebuilding marks of equal length; that Store.RemoveMessage is reachable only through the delete processor (per message under !retain[i], with that element's id), which runs only in TRANSACTION under the QUIT comparison on the success edge of the line read and is followed by QUIT; that marking and counting stay paired and RSET rebuilds the marks; that every listed line and accumulated total is conditional on retain[i] with number i+1 and the right accessor; that argument-derived indices are within 1..len(snapshot); and that listings end with the terminator. The store underneath a live snapshot and TLS are not decided.",
+      "Trusts go/ssa; one Session per goroutine; ParseInt(…,32) fits int.",
+      "DESIGN.md section 4, C13")
